@@ -722,7 +722,7 @@ func rulesTrieKeys(c *Ctx, r *Report) {
 	desc := ""
 	instrs(fe, func(in ssa.Instruction) {
 		bo, ok := in.(*ssa.BinOp)
-		if !ok || bo.Op != token.EQL {
+		if !ok || (bo.Op != token.EQL && bo.Op != token.NEQ) { // `i == len` leaves the branch, `i != len` stays in it
 			return
 		}
 		x, y := sf.expr(bo.X), sf.expr(bo.Y)
